@@ -66,6 +66,8 @@ def _run_one(prop, tier, name, seed):
         out['bounds'] = ob.bounds
         out['outside'] = ob.outside
         out['stubs'] = list(ob.stubs)
+        os.environ.setdefault('VSYM_CROSSCHECK_EVERY', '25' if tier == 'quick' else '5')
+        os.environ.setdefault('VSYM_CROSSCHECK_CAP', '300' if tier == 'quick' else '5000')
         ex = core.Explorer(max_paths=ob.max_paths, deadline_s=ob.budget_s, stop_on_violation=False)
         ex.max_violations = 40
         try:
@@ -76,7 +78,10 @@ def _run_one(prop, tier, name, seed):
             return out
         st = ex.stats
         out.update(paths=st.paths, paths_ok=st.paths_ok, queries=st.queries, solver_s=round(st.solver_s, 3),
-                   unknowns=st.unknowns, max_depth=st.max_depth)
+                   unknowns=st.unknowns, max_depth=st.max_depth, unsat_answers=getattr(st, 'unsat_answers', 0),
+                   crosschecked=getattr(st, 'crosschecked', 0), crosscheck_agree=getattr(st, 'crosscheck_agree', 0),
+                   crosscheck_undecided=getattr(st, 'crosscheck_undecided', 0), crosscheck_disagree=getattr(st, 'crosscheck_disagree', 0),
+                   crosscheck_s=round(getattr(st, 'crosscheck_s', 0.0), 2), fresh_solver_queries=getattr(st, 'fresh_solver_queries', 0))
         try:
             out['functions'] = loader.describe(*ob.functions()) if callable(ob.functions) else []
         except Exception as e:        # pragma: no cover
@@ -362,6 +367,10 @@ def write_evidence(prop, tier, seed, results, validated, n_viol, wall, mod, self
                                 'violations': len(r.get('violations', []))} for r in results],
             'solver': 'z3 %s (python API, incremental, model-guided branching)' % _z3_version(),
             'model_self_validation': selfres,
+            'second_solver': {'solver': 'cvc5 (python API) re-decides a sample of the unsat answers of z3 (every path pruning and every discharged requirement is an unsat answer)',
+                              'unsat_answers': sum(r.get('unsat_answers', 0) for r in results), 'rechecked': sum(r.get('crosschecked', 0) for r in results),
+                              'agree': sum(r.get('crosscheck_agree', 0) for r in results), 'undecided_by_cvc5': sum(r.get('crosscheck_undecided', 0) for r in results),
+                              'disagree': sum(r.get('crosscheck_disagree', 0) for r in results), 'seconds': round(sum(r.get('crosscheck_s', 0) for r in results), 1)},
             'trusted_base': ['CPython 3.12', 'z3', 'vsym.core path bookkeeping', 'vsym.models shadows', 'vsym.rope abstraction'],
         },
         'assumptions': sorted({s for r in results for s in r.get('stubs', [])} | set(getattr(mod, 'ASSUMPTIONS', []))),
